@@ -122,6 +122,96 @@ theorem ofVisit_shrLe (v : FromValue.R) (r : Bytes) (p : Nat) : ShrLe r (ofVisit
   · exact ok_shrLe _ _ _
   · exact (raw_shr _ _ _).le
 
+theorem digitsOf_length (r : Bytes) : (digitsOf r).1.length + (digitsOf r).2.length = r.length := by
+  induction r with
+  | nil => simp [digitsOf]
+  | cons c r ih =>
+    simp only [digitsOf]
+    split
+    · simp only [List.length_cons]; omega
+    · simp
+
+theorem digitsOf_le (r : Bytes) : (digitsOf r).2.length ≤ r.length := by
+  have := digitsOf_length r; omega
+
+theorem scanExp_le (env : Env) (neg : Bool) (int : Bytes) (frac : Option Bytes) (rest : Bytes) (pos : Nat) :
+    ShrLe rest (scanExp env neg int frac rest pos) := by
+  unfold scanExp
+  split
+  · exact (atEof_shr _ _ _ _).le
+  · rename_i c r
+    dsimp only
+    have hs : (if c == 0x2b then ((false, r, pos + 1) : Bool × Bytes × Nat) else if c == 0x2d then (true, r, pos + 1)
+        else (false, c :: r, pos)).2.1.length ≤ (c :: r).length := by
+      split
+      · simp
+      · split <;> simp
+    split
+    · exact (atEof_shr _ _ _ _).le
+    · rename_i d r2 hd
+      rw [hd] at hs
+      have h2 := digitsOf_le r2
+      simp only [List.length_cons] at hs
+      repeat' split
+      all_goals first
+        | exact (err_shr _ _ _).le
+        | exact (io_shr _).le
+        | exact ok_shrLe_of (by simp only [List.length_cons]; omega)
+
+theorem scanAfterInt_le (env : Env) (neg : Bool) (int : Bytes) (rest : Bytes) (pos : Nat) :
+    ShrLe rest (scanAfterInt env neg int rest pos) := by
+  unfold scanAfterInt
+  split
+  · split
+    · exact (io_shr _).le
+    · exact ok_shrLe _ _ _
+  · rename_i c r
+    split
+    · dsimp only
+      have h2 := digitsOf_le r
+      split
+      · repeat' split
+        all_goals first
+          | exact (atEof_shr _ _ _ _).le
+          | exact (io_shr _).le
+          | exact ok_shrLe_of (by simp)
+      · rename_i c2 r3 h3
+        rw [h3] at h2
+        simp only [List.length_cons] at h2
+        repeat' split
+        all_goals first
+          | exact (err_shr _ _ _).le
+          | exact (scanExp_le _ _ _ _ _ _).mono (by simp only [List.length_cons]; omega)
+          | exact ok_shrLe_of (by simp only [List.length_cons]; omega)
+    · split
+      · exact (scanExp_le _ _ _ _ _ _).mono (by simp)
+      · exact ok_shrLe _ _ _
+
+theorem scanInteger_shr (env : Env) (neg : Bool) (rest : Bytes) (pos : Nat) : Shr rest (scanInteger env neg rest pos) := by
+  unfold scanInteger
+  split
+  · exact atEof_shr _ _ _ _
+  · rename_i c r
+    have lt : ∀ {x : Res Model.Num.Parts} {r' : Bytes}, ShrLe r' x → r'.length ≤ r.length → Shr (c :: r) x :=
+      fun hx hl => ⟨hx.1, fun a r'' p'' e => by have := hx.2 a r'' p'' e; simp only [List.length_cons]; omega⟩
+    split
+    · split
+      · exact lt (scanAfterInt_le _ _ _ _ _) (by simp)
+      · split
+        · exact err_shr _ _ _
+        · exact lt (scanAfterInt_le _ _ _ _ _) (Nat.le_refl _)
+    · split
+      · exact lt (scanAfterInt_le _ _ _ _ _) (digitsOf_le r)
+      · exact err_shr _ _ _
+
+theorem scanNumber_shr (env : Env) (rest : Bytes) (pos : Nat) : Shr rest (scanNumber env rest pos) := by
+  unfold scanNumber
+  split
+  · exact atEof_shr _ _ _ _
+  · split
+    · exact (scanInteger_shr _ _ _ _).mono (by simp)
+    · exact scanInteger_shr _ _ _ _
+
 theorem deNumber_shr (env : Env) (ty : NumTy) : Good (deNumber env ty) := by
   intro rest pos
   unfold deNumber
@@ -129,24 +219,12 @@ theorem deNumber_shr (env : Env) (ty : NumTy) : Good (deNumber env ty) := by
   · exact atEof_shr _ _ _ _
   · rename_i b r p h
     split
-    · have hm := machine_shr (numEnv env) env.flt 0 init startable_init (b :: r) p
-      simp only
-      split
-      · rename_i v rest' pos' hv
-        have hlt := hm.2 _ _ _ hv
-        split
-        · split
-          · exact shr_skip h (ok_shr_of hlt)
-          · exact err_shr _ _ _
-        · refine shr_skip h (fixPos_shr _ _ ?_)
-          have := ofVisit_shrLe (visitNumber ty v) rest' pos'
-          exact ⟨this.1, fun a r' p' e => Nat.lt_of_le_of_lt (this.2 a r' p' e) hlt⟩
+    · refine shr_skip h ((scanNumber_shr env (b :: r) p).bind_le fun parts r1 p1 _ => ?_)
+      repeat' split
       all_goals first
-        | exact err_shr _ _ _
-        | exact data_shr _ _
-        | exact raw_shr _ _ _
-        | exact io_shr _
-        | (rename_i hf; exact absurd hf hm.1)
+        | exact ok_shrLe _ _ _
+        | exact (err_shr _ _ _).le
+        | exact fixPos_shrLe _ _ (ofVisit_shrLe _ _ _)
     · exact peekInvalidType_shr _ _ _ _
 
 theorem scanDigits_le (env : Env) (acc : Bytes) (rest : Bytes) (pos : Nat) : ShrLe rest (scanDigits env acc rest pos) := by
